@@ -541,7 +541,18 @@ fn c09_hist(input: &Input, obs: &mut Obs) -> Result<(), Fail> {
         }
         let nops = s.range(3, 40);
         for _ in 0..nops {
-            match s.weighted(&[12, 5, 5, 4, 2]) {
+            match s.weighted(&[12, 5, 5, 4, 2, 2]) {
+                5 => {
+                    // the application flushes instead of waiting for the next poll (only sound
+                    // while no socket buffer was shrunk: the witness' small responses then fit)
+                    if !w.sndbuf_shrunk {
+                        w.flush();
+                        obs.label("flush_outgoing_writes");
+                        if let Some(e) = w.api_errors.first() {
+                            return Err(("respond-err".into(), e.clone()));
+                        }
+                    }
+                }
                 0 => {
                     let a = 1 + s.below(nadv);
                     let had_inflight = w.outstanding.iter().any(|o| o.c == a);
@@ -653,6 +664,7 @@ fn c09_hist(input: &Input, obs: &mut Obs) -> Result<(), Fail> {
 /// complete a round trip. params = operation codes.
 /// 0 connect 1 one request 2 two pipelined requests 3 garbage 4 partial request 5 shutdown(RD)
 /// 6 shutdown(WR) 7 close 8 answer the adversary's oldest request 9 answer it with 300 KB
+/// 10 answer it and flush_outgoing_writes
 fn c09_macro(input: &Input, obs: &mut Obs) -> Result<(), Fail> {
     let ops = input.params();
     let mut w = World::new(6, false, obs.want_render).map_err(|e| Fail::new("harness-world", e))?;
@@ -694,10 +706,14 @@ fn c09_macro(input: &Input, obs: &mut Obs) -> Result<(), Fail> {
                 5 => w.shutdown_client(adv, libc::SHUT_RD),
                 6 => w.shutdown_client(adv, libc::SHUT_WR),
                 7 => w.close_client(adv),
-                8 | 9 => {
+                8 | 9 | 10 => {
                     if let Some(k) = w.outstanding.iter().position(|o| o.c != wit) {
                         if !w.respond(k, 200, if *op == 9 { 300_000 } else { 20 }) {
                             return Err(("respond-err".into(), w.api_errors.last().cloned().unwrap_or_default()));
+                        }
+                        if *op == 10 {
+                            // delivered by flush_outgoing_writes instead of the next poll
+                            w.flush();
                         }
                     }
                 }
@@ -770,8 +786,9 @@ fn c09_macro_enum(tier: Tier, shard: u64, nshards: u64, f: &mut dyn FnMut(&[u64]
         if seq.len() == depth {
             return;
         }
-        for op in 0..10u64 {
+        for op in 0..11u64 {
             let (ok, nst, npend, nconn) = match op {
+                10 => (pending > 0 && st != 4, st, pending - pending.min(1), connects),
                 0 => ((st == 0 || st == 4) && connects < 3, 1, pending, connects + 1),
                 1 => (st == 1 || st == 2, st, (pending + 1).min(3), connects),
                 2 => (st == 1 || st == 2, st, (pending + 2).min(3), connects),
@@ -800,7 +817,7 @@ fn c09_plan(tier: Tier) -> Vec<Job> {
     let q = tier == Tier::Quick;
     vec![
         Job { sub: "hist", kind: JobKind::Pbt { cases: if q { 40_000 } else { 800_000 }, max_len: 500 }, smallbuf: false },
-        Job { sub: "macro", kind: JobKind::Enum { f: c09_macro_enum, bound: if q { "all applicable adversary macro-operation sequences of length <= 6 over {connect, 1 request, 2 pipelined, garbage, partial, shutdown(RD), shutdown(WR), close, answer (small), answer (300 KB)}, a witness round trip after every operation" } else { "same, length <= 8" } }, smallbuf: false },
+        Job { sub: "macro", kind: JobKind::Enum { f: c09_macro_enum, bound: if q { "all applicable adversary macro-operation sequences of length <= 6 over {connect, 1 request, 2 pipelined, garbage, partial, shutdown(RD), shutdown(WR), close, answer (small), answer (300 KB), answer + flush}, a witness round trip after every operation" } else { "same, length <= 8" } }, smallbuf: false },
     ]
 }
 
@@ -1122,6 +1139,9 @@ fn c07_audit_all(w: &World) -> Result<(), (String, String)> {
     }
     if let Some(e) = w.api_errors.first() {
         return Err(("respond-rejected".into(), format!("supplying a response was refused: {}", e)));
+    }
+    if let Some(PollRes::Err(e)) = w.poll_results.iter().find(|r| matches!(r, PollRes::Err(e) if e.starts_with("PANIC"))) {
+        return Err(("server-panic".into(), format!("requests() panicked: {}", e)));
     }
     Ok(())
 }
